@@ -81,9 +81,53 @@ def sig_digits(conv: str) -> Optional[int]:
         return (int(prec) if prec is not None else 6) + 1
     if kind in "gG":
         return int(prec) if prec is not None else 6
-    if kind == "r":
-        return 17
-    return 0          # f, d, i, s: not a fixed number of significant digits
+    if kind in "rs":
+        return 17     # repr / str of a float64 is its shortest round-trip text
+    return 0          # f, d, i: not a fixed number of significant digits
+
+
+def _format_strings(f_: T, fn, prog) -> Optional[List[str]]:
+    """the printf formats a savetxt `fmt` argument can consist of: literal
+    strings, lists of them, list concatenation / repetition, a validated
+    pass-through helper, and a parameter of the writer at its default (the
+    documented call form)"""
+    f_ = Interp.unname(f_)
+    if tm.is_const(f_) and isinstance(f_.args[1], str):
+        return [f_.args[1]]
+    if f_.op in ("list", "tuple"):
+        out = []
+        for x in f_.args:
+            s = _format_strings(x, fn, prog)
+            if s is None:
+                return None
+            out += s
+        return out
+    if f_.op == "binop" and f_.args[0] == "Add":
+        a = _format_strings(f_.args[1], fn, prog)
+        b = _format_strings(f_.args[2], fn, prog)
+        return None if a is None or b is None else a + b
+    if f_.op == "binop" and f_.args[0] == "Mult":
+        for x in (f_.args[1], f_.args[2]):
+            s = _format_strings(x, fn, prog)
+            if s is not None:
+                return s
+        return None
+    if f_.op == "param":
+        import ast as _ast
+        d = fn.defaults().get(f_.args[0])
+        if isinstance(d, _ast.Constant) and isinstance(d.value, str):
+            return [d.value]
+        if isinstance(d, _ast.Name):
+            v = Interp(prog).global_name(d.id, fn.module)
+            if tm.is_const(v) and \
+                    isinstance(v.args[1], str):
+                return [v.args[1]]
+        return None
+    if f_.op == "call" and len(f_.args[1]) == 1 and \
+            (tm.callee_name(f_) or "").startswith("evo."):
+        # a checking helper that returns its argument
+        return _format_strings(f_.args[1][0], fn, prog)
+    return None
 
 
 def lossy_ops(t: T) -> List[str]:
@@ -166,13 +210,10 @@ def check(ctx):
                 continue
             fu = Interp.unname(f_)
             specs = []
-            if tm.is_const(fu) and isinstance(fu.args[1], str):
-                specs = re.findall(r"%[^%]*?[a-zA-Z]", fu.args[1])
-            elif fu.op in ("list", "tuple") and all(
-                    tm.is_const(x) and isinstance(x.args[1], str)
-                    for x in fu.args):
-                specs = [s for x in fu.args
-                         for s in re.findall(r"%[^%]*?[a-zA-Z]", x.args[1])]
+            strs = _format_strings(fu, r.func, prog)
+            if strs is not None:
+                specs = [s for x in strs
+                         for s in re.findall(r"%[^%]*?[a-zA-Z]", x)]
             else:
                 ctx.undecidable("C06.1", e, f"{q}: non-literal savetxt "
                                 f"format {fmt(f_)}")
@@ -210,8 +251,10 @@ def check(ctx):
     for e in r.calls("evo.core.result.Result.add_np_array"):
         paths.append(("load_res_file: array loaded", e,
                       e.data["args"][1]))
+    from ..lib import exact_text
     for what, site, term in paths:
-        bad = lossy_ops(term)
+        # conversions that verify their own round trip are exact
+        bad = lossy_ops(exact_text(term))
         # string conversions that only build *names* are not value paths
         ctx.ob("C06.2", site, not bad,
                f"{what}: no precision-reducing operation on the value path"
@@ -388,7 +431,8 @@ def check(ctx):
     # ------------------------------------------------------- C06.4 / C06.5
     traj = tm.param("traj")
     rw = results[FI + "write_tum_trajectory_file"]
-    data = rw.calls("numpy.savetxt")[0].data["args"][1]
+    from ..lib import exact_text
+    data = exact_text(rw.calls("numpy.savetxt")[0].data["args"][1])
     lw = Layout(_traj_base(traj))
     try:
         wcols = lw.cols(data)
